@@ -183,8 +183,10 @@ PolyMixed(a, c, b) == PolyMixedW(par.w, a, c, b)
 \* specification allows either until the next init_numeric, after which only the current values are allowed.
 \* A mixture (sweeps with one parameter, scaling with the other) is never allowed.
 Allowed(a, c, b) ==
-  {OpW(w, x, b) : w \in {wAt, par.w}, x \in {a, c}}
-  \cup (IF kind = "poly" /\ a # c THEN {PolyMixedW(w, a, c, b) : w \in {wAt, par.w}} ELSE {})
+  LET ws == IF wAt = par.w THEN {par.w} ELSE {wAt, par.w}
+      cs == IF a = c THEN {c} ELSE {a, c}
+  IN {OpW(w, x, b) : w \in ws, x \in cs}
+     \cup (IF kind = "poly" /\ a # c THEN {PolyMixedW(w, a, c, b) : w \in ws} ELSE {})
 
 \* the input lies in the exact domain: every result on every test vector is dyadic
 ExactInput(nn, pat, pl, kd, pr, FF) ==
